@@ -192,6 +192,17 @@ impl Report {
     pub fn has_violation(&self, signature: &str) -> bool {
         self.violations.iter().any(|v| v.signature == signature)
     }
+    /// wall-clock budget of this worker (env VERIF_WALL_CAP, seconds); engines poll this in their
+    /// outermost loop, stop early and report the cap (the run is then not exhaustive)
+    pub fn over_budget(&mut self) -> bool {
+        let cap: f64 = std::env::var("VERIF_WALL_CAP").ok().and_then(|s| s.parse().ok()).unwrap_or(f64::MAX);
+        if self.elapsed() > cap {
+            self.cap(format!("wall-clock cap of {cap} s per worker reached; the remaining part of the enumeration was not explored"));
+            true
+        } else {
+            false
+        }
+    }
     pub fn elapsed(&self) -> f64 {
         self.start.map_or(0.0, |s| s.elapsed().as_secs_f64())
     }
